@@ -840,7 +840,15 @@ func (r *Reader) FetchMessage(ctx context.Context) (Message, error) {
 		}
 
 		version := r.version
+		closed := r.closed
 		r.mutex.Unlock()
+
+		if closed {
+			// The reader has been closed: report it right away instead of
+			// handing out messages (or errors) that were still buffered in
+			// r.msgs when Close ran.
+			return Message{}, io.EOF
+		}
 
 		select {
 		case <-ctx.Done():
